@@ -271,3 +271,107 @@ T('pkgL_t_routes_zipped_with_targets', ['C20'],
 T('pkgL_t_routes_sliced_pages', ['C20'],
   (FL, _ROUTES, "    pages = [(pattern, get_flaw_info, 'flaw_tmpl') for pattern in ('/', '/<_ignored*>')]\n"
                 "    routes = [*pages[:1], ('/clastic_assets/', StaticApplication(_ASSET_PATH)), *pages[1:]]\n"))
+
+
+# ------------------------------------------------------------------ R20.f: the exception line is searched from the end of the text
+_SEARCH = ("        for line in reversed(tb_lines):\n"
+           "            # get the bottom-most line that looks like an actual Exception\n"
+           "            # repr(), (i.e., \"Exception: message\")\n"
+           "            exc_type, sep, exc_msg = line.partition(':')\n"
+           "            if sep and exc_type and len(exc_type.split()) == 1:\n"
+           "                break\n")
+_FROM_STRING = "    @classmethod\n    def from_string(cls, tb_str):\n"
+_IS_EXC_LINE = ("    @staticmethod\n    def _is_exc_line(line):\n        head, sep, _ = line.partition(':')\n"
+                "        return bool(sep and head and len(head.split()) == 1)\n\n")
+
+B('pkgL_b_exc_line_search_top_down', ['C20'], 'R20.f',
+  (FL, "        for line in reversed(tb_lines):\n", "        for line in tb_lines:\n"))
+B('pkgL_b_exc_line_next_over_lines', ['C20'], 'R20.f',
+  (FL, _SEARCH, "        exc_line = next((ln for ln in tb_lines if cls._is_exc_line(ln)), tb_lines[0])\n"
+                "        exc_type, sep, exc_msg = exc_line.partition(':')\n"),
+  (FL, _FROM_STRING, _IS_EXC_LINE + _FROM_STRING))
+B('pkgL_b_exc_line_first_of_filtered', ['C20'], 'R20.f',
+  (FL, _SEARCH, "        found = [ln for ln in tb_lines if ':' in ln and len(ln.partition(':')[0].split()) == 1]\n"
+                "        exc_line = found[0] if found else tb_lines[0]\n"
+                "        exc_type, sep, exc_msg = exc_line.partition(':')\n"))
+B('pkgL_b_exc_line_ascending_index', ['C20'], 'R20.f',
+  (FL, _SEARCH, "        for pos in range(len(tb_lines)):\n"
+                "            exc_type, sep, exc_msg = tb_lines[pos].partition(':')\n"
+                "            if sep and exc_type and len(exc_type.split()) == 1:\n"
+                "                break\n"))
+B('pkgL_b_exc_line_reversed_keeps_last_hit', ['C20'], 'R20.f',
+  (FL, _SEARCH, "        exc_type, sep, exc_msg = tb_lines[0].partition(':')\n"
+                "        for line in reversed(tb_lines):\n"
+                "            head, sep, tail = line.partition(':')\n"
+                "            if sep and head and len(head.split()) == 1:\n"
+                "                exc_type, exc_msg = head, tail\n"))
+B('pkgL_b_exc_line_helper_method_returns_first', ['C20'], 'R20.f',
+  (FL, _SEARCH, "        exc_type, sep, exc_msg = cls.exception_line(tb_lines).partition(':')\n"),
+  (FL, _FROM_STRING, "    @staticmethod\n    def exception_line(lines):\n        for line in lines:\n"
+                     "            head, sep, _ = line.partition(':')\n"
+                     "            if sep and head and len(head.split()) == 1:\n                return line\n"
+                     "        return lines[0]\n\n" + _FROM_STRING))
+B('pkgL_b_exc_line_double_reversal', ['C20'], 'R20.f',
+  (FL, "        for line in reversed(tb_lines):\n", "        for line in reversed(tb_lines[::-1]):\n"))
+B('pkgL_b_exc_line_while_index_up', ['C20'], 'R20.f',
+  (FL, _SEARCH, "        pos = 0\n        while pos < len(tb_lines) - 1:\n"
+                "            head, sep, _ = tb_lines[pos].partition(':')\n"
+                "            if sep and head and len(head.split()) == 1:\n                break\n"
+                "            pos += 1\n"
+                "        exc_type, sep, exc_msg = tb_lines[pos].partition(':')\n"))
+
+T('pkgL_t_exc_line_slice_reversed', ['C20'],
+  (FL, "        for line in reversed(tb_lines):\n", "        for line in tb_lines[::-1]:\n"))
+T('pkgL_t_exc_line_top_down_keeps_last_hit', ['C20'],
+  (FL, _SEARCH, "        exc_type, sep, exc_msg = tb_lines[0].partition(':')\n"
+                "        for line in tb_lines:\n"
+                "            head, sep, tail = line.partition(':')\n"
+                "            if sep and head and len(head.split()) == 1:\n"
+                "                exc_type, exc_msg = head, tail\n"))
+T('pkgL_t_exc_line_next_over_reversed', ['C20'],
+  (FL, _SEARCH, "        exc_line = next((ln for ln in reversed(tb_lines) if cls._is_exc_line(ln)), tb_lines[0])\n"
+                "        exc_type, sep, exc_msg = exc_line.partition(':')\n"),
+  (FL, _FROM_STRING, _IS_EXC_LINE + _FROM_STRING))
+T('pkgL_t_exc_line_descending_index', ['C20'],
+  (FL, _SEARCH, "        for pos in range(len(tb_lines) - 1, -1, -1):\n"
+                "            exc_type, sep, exc_msg = tb_lines[pos].partition(':')\n"
+                "            if sep and exc_type and len(exc_type.split()) == 1:\n"
+                "                break\n"))
+T('pkgL_t_exc_line_negative_index_walk', ['C20'],
+  (FL, _SEARCH, "        for back in range(1, len(tb_lines) + 1):\n"
+                "            exc_type, sep, exc_msg = tb_lines[-back].partition(':')\n"
+                "            if sep and exc_type and len(exc_type.split()) == 1:\n"
+                "                break\n"))
+T('pkgL_t_exc_line_helper_method', ['C20'],
+  (FL, _SEARCH, "        exc_type, sep, exc_msg = cls.exception_line(tb_lines).partition(':')\n"),
+  (FL, _FROM_STRING, "    @staticmethod\n    def exception_line(lines):\n        for line in reversed(lines):\n"
+                     "            head, sep, _ = line.partition(':')\n"
+                     "            if sep and head and len(head.split()) == 1:\n                return line\n"
+                     "        return lines[0]\n\n" + _FROM_STRING))
+T('pkgL_t_exc_line_last_of_filtered', ['C20'],
+  (FL, _SEARCH, "        found = [ln for ln in tb_lines if ':' in ln and len(ln.partition(':')[0].split()) == 1]\n"
+                "        exc_line = found[-1] if found else tb_lines[0]\n"
+                "        exc_type, sep, exc_msg = exc_line.partition(':')\n"))
+T('pkgL_t_exc_line_popped_from_copy', ['C20'],
+  (FL, _SEARCH, "        rest = list(tb_lines)\n        while rest:\n"
+                "            exc_type, sep, exc_msg = rest.pop().partition(':')\n"
+                "            if sep and exc_type and len(exc_type.split()) == 1:\n"
+                "                break\n"))
+T('pkgL_t_exc_line_while_index_down', ['C20'],
+  (FL, _SEARCH, "        pos = len(tb_lines) - 1\n        while pos > 0:\n"
+                "            head, sep, _ = tb_lines[pos].partition(':')\n"
+                "            if sep and head and len(head.split()) == 1:\n                break\n"
+                "            pos -= 1\n"
+                "        exc_type, sep, exc_msg = tb_lines[pos].partition(':')\n"))
+T('pkgL_t_exc_line_private_helper_for_else', ['C20'],
+  (FL, _SEARCH, "        exc_type, sep, exc_msg = cls._exception_line(tb_lines).partition(':')\n"),
+  (FL, _FROM_STRING, "    @staticmethod\n    def _exception_line(lines):\n        for line in reversed(lines):\n"
+                     "            head, sep, _ = line.partition(':')\n"
+                     "            if sep and head and len(head.split()) == 1:\n                return line\n"
+                     "        return lines[0]\n\n" + _FROM_STRING))
+B('pkgL_b_exc_line_private_helper_top_down', ['C20'], 'R20.f',
+  (FL, _SEARCH, "        exc_type, sep, exc_msg = cls._exception_line(tb_lines).partition(':')\n"),
+  (FL, _FROM_STRING, "    @staticmethod\n    def _exception_line(lines):\n        for line in lines:\n"
+                     "            head, sep, _ = line.partition(':')\n"
+                     "            if sep and head and len(head.split()) == 1:\n                return line\n"
+                     "        return lines[0]\n\n" + _FROM_STRING))
